@@ -279,3 +279,61 @@ def full_event(rnd, uid):
            'count': sum(counts) if all(counts) else 0, 'until': max(untils) if all(u is not None for u in untils) else [],
            'ics': event_ics(uid, ds, [r for r, _, _ in rules], tzid=tz)}
     return rec
+
+
+# ---------------------------------------------------------------- hostile events (C09)
+ALLH = ','.join(str(x) for x in range(24)); ALL60 = ','.join(str(x) for x in range(60))
+
+
+def hostile_rule_text(rnd, ds):
+    """syntactically acceptable, semantically odd: incongruent INTERVAL/BYxxx, maximal time-of-day products, out-of-range
+    ordinals, BYMONTHDAY beyond the month length, extreme SHIFT/BYEASTER/BYSETPOS, huge and zero INTERVAL/COUNT"""
+    freq = rnd.choice(FREQS)
+    p = ['FREQ=' + freq]
+    def lst(pool, k): return ','.join(str(x) for x in rnd.sample(list(pool), min(k, len(pool))))
+    x = rnd.random()
+    if x < 0.6: p.append('INTERVAL=%d' % rnd.choice([0, 1, 2, 3, 4, 5, 6, 7, 8, 12, 24, 25, 48, 60, 61, 120, 366, 400, 1000, 32767, 32768, 65535, 65536, 100000, 2147483647, 4294967295, 4294967296]))
+    if rnd.random() < 0.4: p.append('BYMONTH=' + lst([1, 2, 2, 3, 4, 6, 9, 11, 12, 0, 13, 31, 32, -1], rnd.randint(1, 3)))
+    if rnd.random() < 0.35: p.append('BYMONTHDAY=' + lst([29, 30, 31, -29, -30, -31, 0, 32, -32, 1, 28, 100], rnd.randint(1, 4)))
+    if rnd.random() < 0.35:
+        days = rnd.sample(WD, rnd.randint(1, 7))
+        p.append('BYDAY=' + ','.join((rnd.choice(['', '5', '-5', '6', '53', '-53', '54', '0', '99', '-99', '366', '1', '-1']) if rnd.random() < 0.6 else '') + d for d in days))
+    if rnd.random() < 0.2: p.append('BYYEARDAY=' + lst([1, 60, 365, 366, 367, 0, -366, -367, 400, -400, 383, 384], rnd.randint(1, 3)))
+    if rnd.random() < 0.2: p.append('BYWEEKNO=' + lst([1, 52, 53, 54, 0, -53, -54, 63, 64], rnd.randint(1, 3)))
+    if rnd.random() < 0.2: p.append('BYEASTER=' + lst([0, -366, 366, 367, -367, 383, 384, -384, 300, -300], rnd.randint(1, 3)))
+    if rnd.random() < 0.25: p.append('BYSETPOS=' + lst([1, -1, 366, -366, 367, 0, 383, 384, 400, 65], rnd.randint(1, 3)))
+    if rnd.random() < 0.5:
+        y = rnd.random()
+        if y < 0.25:      # maximal product
+            p += ['BYHOUR=' + ALLH, 'BYMINUTE=' + ALL60, 'BYSECOND=' + ALL60]
+        elif y < 0.5:     # incongruent with the interval
+            p.append('BYHOUR=' + lst([1, 3, 5, 7, 23], 2)) if rnd.random() < 0.7 else None
+            p.append('BYMINUTE=' + lst([1, 7, 31, 59], 2)) if rnd.random() < 0.7 else None
+            p.append('BYSECOND=' + lst([1, 7, 31, 59], 2)) if rnd.random() < 0.7 else None
+        else:             # out of range values
+            p.append('BYHOUR=' + lst([0, 23, 24, 25, 31, 32, 63, 64, 255, -1], 3)) if rnd.random() < 0.7 else None
+            p.append('BYMINUTE=' + lst([0, 59, 60, 61, 63, 64, 255, -1], 3)) if rnd.random() < 0.7 else None
+            p.append('BYSECOND=' + lst([0, 59, 60, 61, 63, 64, 255, -1], 3)) if rnd.random() < 0.7 else None
+        p = [q for q in p if q]
+    if rnd.random() < 0.25: p.append('SHIFT=' + rnd.choice(['366', '-366', '367', '-400', '1000', '-1000', '32767', '-32768', '40000', '366B', '-366B', '4000B', '-4000B', '16383B', '16384B', '366,366B', '-366,-366B', '-366,366B', '0B', '-0B', '0B+', '-0B-', 'B', '-', ',', '1,', '1B2', '1BB']))
+    if rnd.random() < 0.15: p.append('SCALE=' + rnd.choice(HIJRI + ['HIJRI', 'GREGORIAN', 'HIJRI.IIC', 'HIJRI.IIIA', 'HIJRI.IVC', 'NONSENSE']))
+    x = rnd.random()
+    if x < 0.35: p.append('COUNT=%d' % rnd.choice([0, 1, 2, 63, 64, 65, 127, 128, 129, 1000, 2147483647, 4294967295, 4294967296, -1]))
+    elif x < 0.6:
+        y, m, d = ds[:3]
+        p.append('UNTIL=' + rnd.choice(['19000101', '19010101T000000Z', '%04d%02d%02d' % (y, m, d), '%04d%02d%02dT000000Z' % (y, m, d), '%04d0101' % max(1900, y - 1), '20991231T235959Z', '21000101', '99991231', '20380119T031408Z']))
+    rnd.shuffle(p)
+    if not p[0].startswith('FREQ') and rnd.random() < 0.7:
+        p.remove('FREQ=' + freq); p.insert(0, 'FREQ=' + freq)
+    return ';'.join(p)
+
+
+def hostile_event(rnd, uid):
+    y = rnd.choice([1900, 1901, 1902, 1903, 1969, 1970, 1999, 2000, 2037, 2038, 2039, 2076, 2077, 2078, 2096, 2097, 2098, 2099, 2100, 1600, 9999] + year_types())
+    m = rnd.randint(1, 12); d = rnd.choice([1, 28, 29, 30, 31, rnd.randint(1, 28)]); d = min(d, dim(y, m)) if rnd.random() < 0.95 else d
+    timed = rnd.random() < 0.7
+    ds = (y, m, d, rnd.choice([0, 12, 23]), rnd.choice([0, 30, 59]), rnd.choice([0, 59])) if timed else (y, m, d)
+    tz = rnd.choice(ZONES) if timed and rnd.random() < 0.2 else None
+    rules = [hostile_rule_text(rnd, ds) for _ in range(rnd.choice([1, 1, 1, 2, 3]))]
+    return {'uid': uid, 'ds': inst(ds), 'tz': bool(tz), 'rtext': ' | '.join(rules), 'count': 0, 'until': [],
+            'ics': event_ics(uid, ds, rules, tzid=tz)}
